@@ -96,7 +96,53 @@ func flagLoad(v ssa.Value, f *types.Var) (pol bool, ok bool) {
 			return !p, true
 		}
 	}
+	// a getter: a parameterless method whose every result is a load of the flag with one polarity (taken under a
+	// lock or atomically)
+	if call, isCall := v.(*ssa.Call); isCall {
+		if sf := call.Common().StaticCallee(); sf != nil && len(sf.Blocks) > 0 && len(sf.Params) == 1 && sf.Signature.Results().Len() == 1 {
+			return getterOfFlag(sf, f)
+		}
+	}
 	return false, false
+}
+
+var getterMemo = map[[2]interface{}][2]bool{}
+
+func getterOfFlag(sf *ssa.Function, f *types.Var) (pol bool, ok bool) {
+	key := [2]interface{}{sf, f}
+	if r, done := getterMemo[key]; done {
+		return r[0], r[1]
+	}
+	getterMemo[key] = [2]bool{false, false} // recursion guard
+	var vals []ssa.Value
+	for _, l := range resultLeaves(sf, 0) {
+		v := l.V
+		// a result spilled because of a defer: the local it was stored into
+		if ld, isLd := v.(*ssa.UnOp); isLd && ld.Op == token.MUL {
+			if al, isAl := ld.X.(*ssa.Alloc); isAl && al.Referrers() != nil {
+				for _, r := range *al.Referrers() {
+					if st, isSt := r.(*ssa.Store); isSt && st.Addr == al {
+						vals = append(vals, st.Val)
+					}
+				}
+				continue
+			}
+		}
+		vals = append(vals, v)
+	}
+	if len(vals) == 0 {
+		return false, false
+	}
+	first := true
+	for _, v := range vals {
+		p, isFlag := flagLoad(v, f)
+		if !isFlag || (!first && p != pol) {
+			return false, false
+		}
+		pol, first = p, false
+	}
+	getterMemo[key] = [2]bool{pol, true}
+	return pol, true
 }
 
 // flagCAS: v is the result of CompareAndSwap(&f, clear, set).
